@@ -121,7 +121,7 @@ impl Policy for Sections {
 
 #[derive(Clone, Debug)]
 enum What {
-    /// relation 0 main, 1 dedicated, 2 other, 3 no expectation
+    /// relation 0 main, 1 dedicated, 2 other, 3 no expectation, 4 main id above 32767 carried in the 16-bit field only
     Valve { players: GatherToggle, rules: GatherToggle, relation: u8, check: bool },
     Unreal2 { players: GatherToggle, rules: GatherToggle },
 }
@@ -130,10 +130,10 @@ fn cases() -> Vec<(String, What)> {
     let mut v = Vec::new();
     for p in TOGGLES {
         for r in TOGGLES {
-            for relation in 0 .. 4u8 {
+            for relation in 0 .. 5u8 {
                 for check in [true, false] {
                     v.push((
-                        format!("valve players={p:?} rules={r:?} appid={} check_app_id={check}", ["main", "dedicated", "other", "no expectation"][relation as usize]),
+                        format!("valve players={p:?} rules={r:?} appid={} check_app_id={check}", ["main", "dedicated", "other", "no expectation", "main (40000, 16-bit field only, no game id)"][relation as usize]),
                         What::Valve { players: p, rules: r, relation, check },
                     ));
                 }
@@ -189,15 +189,17 @@ impl Prop for C11 {
                             continue;
                         }
                         let per_request = if many { 6usize } else { 1 };
-                        let engine = if relation == 3 { valve::Engine::Source(None) } else { valve::Engine::new_with_dedicated(440, 441) };
+                        let engine = if relation == 3 { valve::Engine::Source(None) } else if relation == 4 { valve::Engine::new_with_dedicated(40_000, 50_000) } else { valve::Engine::new_with_dedicated(440, 441) };
                         let appid: u16 = match relation {
                             0 | 3 => 440,
                             1 => 441,
+                            4 => 40_000,
                             _ => 999,
                         };
                         let mut st = valve_seed(super::c02::EngineCfg::App440);
                         st.info.appid = appid;
-                        st.info.edf.as_mut().unwrap().game_id = Some(appid as u64);
+                        // (relation 4: an old server - the reply has no 64-bit game id, the id is in the unsigned 16-bit field)
+                        st.info.edf.as_mut().unwrap().game_id = if relation == 4 { None } else { Some(appid as u64) };
                         let t = rv::Transport {
                             rounds: if many { [0, per_request, per_request] } else { [0, usize::from(so_p == Sec::ChallengeThenSilent), usize::from(so_r == Sec::ChallengeThenSilent)] },
                             ..Default::default()
